@@ -220,12 +220,14 @@ PROPS["C13"] = dict(
 )
 
 PROPS["C10"] = dict(
-    inject=[("src/bigint.rs", "c10/forms.rs")],
+    inject=[("src/bigint.rs", "c10/forms.rs"), ("src/bigint/division.rs", "c10/div_forms.rs")],
     kani=[dict(filter_q="c10_q_", filter_t=["c10_q_", "c10_t_"], jobs=14, timeout_q=300, timeout_t=1200)],
-    functions=["forwarding macros of src/macros.rs as instantiated for Add/Sub: promote_*_scalars, forward_all_scalar_binop_*, forward_*_assign; Add/Sub<u32|u64|u128|i32|i64|i128> for BigUint/BigInt; Sum/Product"],
+    functions=["Div/Rem/DivAssign/RemAssign<scalar> for BigInt and Div/Rem<BigInt> for scalar (forwarding layer with the unsigned division under recorders)", "impl_rem_assign_scalar! (scalar %= BigUint)",
+               "forwarding macros of src/macros.rs as instantiated for Add/Sub: promote_*_scalars, forward_all_scalar_binop_*, forward_*_assign; Add/Sub<u32|u64|u128|i32|i64|i128> for BigUint/BigInt; Sum/Product"],
     bounds_quick="+ and -: {BigUint x unsigned scalars u8,u64,u128; BigInt x u8,u64,u128,i8,i64,i128} x forms {big op s, s op &big, op-assign, &big op &s} x big operand of 1..2 digits; "
                  "the scalar ranges over its WHOLE type (MIN, -1, 0, MAX are inside every query); all 12 scalar types and all 9 forms in the thorough tier",
-    outside="* / % and pow forms (their forwarding layer is not decided here; the kernels' callers are covered under C02/C03/C12 for the big-by-big forms only); & | ^ have no scalar forms; shifts by every scalar type are C07's amount harnesses; big operands > 3 digits",
+    outside="* and pow scalar forms (the one-digit/two-digit scalar multiplier dispatch is under C02); & | ^ have no scalar forms; shifts by every scalar type are C07's amount harnesses; big operands > 3 digits; "
+            "scalar-on-the-left division with a multi-digit big operand",
     trusted=STUBS_ADDSUB + ["stub: Vec::shrink_to_fit -> no-op"],
 )
 
